@@ -79,6 +79,10 @@ type loginPlan struct {
 	GapMs int `json:"gap_ms,omitempty"`
 	// CancelAtMs (C08): the caller cancels Login's context at that simulated time (the deadline stays at 30 s).
 	CancelAtMs int `json:"cancel_at_ms,omitempty"`
+	// CancelAtStep (C08): the caller cancels Login's context after that many scheduling steps of a second task -
+	// that is: anywhere inside Login, also between two operations that no simulated time separates (after the
+	// last package of a message was queued and before it is flushed, say).
+	CancelAtStep int `json:"cancel_at_step,omitempty"`
 	// Relogin (C09): when Login has returned, it is called once more on the same channel and connection; the server
 	// answers that second attempt with the valid script. Nothing random may be used twice.
 	Relogin bool `json:"relogin,omitempty"`
@@ -693,6 +697,19 @@ func runLogin(p *loginPlan, schedSeed uint64, replay []simrt.Choice, lenient, ke
 			})
 			defer simrt.Join(canceller)
 		}
+		if p.CancelAtStep > 0 && obs == mainObs {
+			canceller := simrt.Spawn("canceller", func() {
+				for i := 0; i < p.CancelAtStep; i++ {
+					simrt.Yield(0)
+				}
+				if now := simrt.SimNow(); now < obs.deadline {
+					obs.deadline = now
+				}
+				simrt.Record("cancel-login-context", "", "", 0)
+				cancel()
+			})
+			defer simrt.Join(canceller)
+		}
 		obs.loginErr = ch.Login(ctx, lc)
 		obs.returnedAt = simrt.SimNow()
 		if p.Relogin && obs == mainObs {
@@ -791,9 +808,17 @@ func (c08) ID() string { return "C08" }
 func c08EditCount() int { return len(loginEdits(false)) + len(loginEdits(true)) }
 func (c08) NRuns(tier string) int {
 	if tier == "thorough" {
-		return c08EditCount()*300 + 300000
+		return c08EditCount()*300 + c08CancelSweep(tier) + 300000
 	}
-	return c08EditCount()*6 + 2000
+	return c08EditCount()*6 + c08CancelSweep(tier) + 2000
+}
+
+// c08CancelSweep: the number of runs of the cancel sweep (Gen).
+func c08CancelSweep(tier string) int {
+	if tier == "thorough" {
+		return 6000
+	}
+	return 600
 }
 func (c08) Rule() string {
 	return "login scripts derived from the valid plain and encrypted reply scripts: EVERY single edit (delete / duplicate / swap-adjacent each package; each field set to each alternative: ack status, message id, parameter count and types, cipher, key empty/garbage/trailing/PKIX/too small/white space/not PEM/ECDSA and Ed25519 keys, capability masks zero, DONE status bits; reply stops after each package; no reply at all), each classified by construction as MUST-SUCCEED / MUST-FAIL / EITHER, x packetisations x key sizes 1024/1536/2048 x nonce lengths x 0..3 remote servers (quick: 6 variants per edit, thorough: 300), one variant of every edit (and 10% of the others) is preceded by a valid login on its own connection, which must succeed and keep its capabilities; one variant each (and 4% of the others): the server ends the connection (EOF or reset) after a reply that stops early or right after the acceptance; the packets of the replies arrive 0.1..4.9 s apart; the caller cancels the context after 1 ms..10 s; one variant of every edit (and 12% of the others) repeats the login 5..8 times and then make a control login against the valid script (must succeed); plus seeded scripts with benign decorations (invisible ENVCHANGE/EED-info packages) and 2..4 edits; non-trivial = an edit or decoration was applied; distinct = distinct (flow, edit, key size, remote count)"
@@ -841,6 +866,15 @@ func (c08) Gen(r *Rand, idx int, tier string) interface{} {
 			p.Prime = true
 		}
 		c08Variants(r, p, idx%variants)
+		return p
+	}
+	if j := idx - ne; j < c08CancelSweep(tier) {
+		// cancel sweep: the valid script, the caller's context cancelled after 1, 2, 3 ... steps of a second task -
+		// so that some run cancels between any two operations of Login
+		p := genLoginPlan(r, j%2 == 0)
+		p.Edit = "none (cancel sweep)"
+		p.Class = "EITHER"
+		p.CancelAtStep = 1 + (j/2)%150
 		return p
 	}
 	// seeded: benign decorations only (must succeed), or 2..4 edits (class: MUST-FAIL if any edit is MUST-FAIL, else EITHER)
@@ -894,7 +928,11 @@ func c08Variants(r *Rand, p *loginPlan, forced int) {
 			either()
 		}
 	case forced == 5 || r.Pct(4):
-		p.CancelAtMs = Pick(r, []int{1, 5, 100, 10000})
+		if r.Pct(70) {
+			p.CancelAtStep = 1 + r.Intn(300)
+		} else {
+			p.CancelAtMs = Pick(r, []int{1, 5, 100, 10000})
+		}
 		either()
 	}
 }
@@ -1027,7 +1065,7 @@ func (c08) Run(plan interface{}, schedSeed uint64, replay []simrt.Choice, lenien
 	if p.GapMs > 0 {
 		v.Probe("replies-trickle")
 	}
-	if p.CancelAtMs > 0 {
+	if p.CancelAtMs > 0 || p.CancelAtStep > 0 {
 		v.Probe("context-cancelled-by-caller")
 	}
 	if obs.loginErr == nil {
